@@ -1544,7 +1544,7 @@ def _baseline_vocab():
     try:
         with open(os.path.join(HERE, 'reason_digests.json')) as fh:
             v = json.load(fh).get('*vocab', {})
-            return {k: (a, set(w)) for k, (a, w) in v.items()}
+            return {k: (val[0], set(val[1])) for k, val in v.items()}
     except (OSError, ValueError):
         return {}
 
